@@ -294,6 +294,27 @@ def igReady (cfg : Cfg) (p : Proc) (s : St) (n : Node) (g : IgSt) (work : List T
     else if cfg.lateJoin then (late && early, s)
     else (early, s)
 
+/-- one fresh token at each of the given start events, in list order -/
+def spawnStarts (s : St) (starts : List Node) : List Tok × St :=
+  starts.foldl (fun (acc, s) m =>
+    (acc ++ [({ fid := s.nextFid, node := m.id } : Tok)], { s with nextFid := s.nextFid + 1 })) ([], s)
+
+/-- Token `t` enters sub-process node `n` whose inner start events are `starts`: the state before the inner
+tokens are created. -/
+def enterSub (cfg : Cfg) (s : St) (t : Tok) (n : Node) (starts : List Node) : St :=
+  -- the code creates the completion monitor once per sub-process node and never re-arms the inner start
+  -- events: on a second activation the inner tokens complete at once and nobody announces the end, so the
+  -- parent token waits for ever
+  let again := cfg.subStartSticky && s.subFired.contains n.id
+  let s := if again then { (s.cause "sub_reentry") with parked := s.parked ++ [t] }
+           else { s with subs := s.subs ++ [t] }
+  -- the token game re-arms the inner start events; the code does not: whenever one of them is still
+  -- `activated` (also when the monitor has not fired, e.g. left over in the state the run starts from),
+  -- the inner token will complete at once — that is the same deviation and it is logged
+  if cfg.subStartSticky then
+    (if s.activated.any (fun a => starts.any (·.id == a)) then s.cause "sub_reentry" else s)
+  else { s with activated := s.activated.filter (fun a => !starts.any (·.id == a)) }
+
 /-- Arrival of token `t` at its node: returns tokens that continue to run, and the new state. -/
 def arrive (cfg : Cfg) (p : Proc) (s : St) (t : Tok) : List Tok × St :=
   match p.node? t.node with
@@ -345,17 +366,7 @@ def arrive (cfg : Cfg) (p : Proc) (s : St) (t : Tok) : List Tok × St :=
       if s.subs.any (·.node == n.id) then ([], s.oos s!"two concurrent activations of sub-process {n.id}")
       else
         let starts := p.nodes.filter (fun m => m.parent == n.id && m.kind == .start)
-        -- the code creates the completion monitor once per sub-process node and never re-arms the inner start
-        -- events: on a second activation the inner tokens complete at once and nobody announces the end, so the
-        -- parent token waits for ever
-        let again := cfg.subStartSticky && s.subFired.contains n.id
-        let s := if again then { (s.cause "sub_reentry") with parked := s.parked ++ [t] }
-                 else { s with subs := s.subs ++ [t] }
-        let s := if cfg.subStartSticky then s
-          else { s with activated := s.activated.filter (fun a => !starts.any (·.id == a)) }
-        let (toks, s) := starts.foldl (fun (acc, s) m =>
-          (acc ++ [({ fid := s.nextFid, node := m.id } : Tok)], { s with nextFid := s.nextFid + 1 })) ([], s)
-        (toks, s)
+        spawnStarts (enterSub cfg s t n starts) starts
     | _ => ([], { s with parked := s.parked ++ [t] })
 
 /-- let one inclusive gateway that may synchronise do so (`trySync` + probing report) -/
@@ -424,8 +435,7 @@ def fuelFor (p : Proc) : Nat := 200 * (p.nodes.length + 5)
 def start (cfg : Cfg) (p : Proc) (vars : Vars) : St :=
   let starts := p.nodes.filter (fun n => n.kind == .start && n.parent == "-")
   let s : St := { vars }
-  let (toks, s) := starts.foldl (fun (acc, s) m =>
-    (acc ++ [({ fid := s.nextFid, node := m.id } : Tok)], { s with nextFid := s.nextFid + 1 })) ([], s)
+  let (toks, s) := spawnStarts s starts
   runWork cfg p (fuelFor p) toks s
 
 inductive Answer where
